@@ -30,7 +30,7 @@ pub fn lanes_of(id: &str) -> Vec<(&'static str, LaneFn)> {
     match id {
         "C01" => vec![("routing", c01::routing), ("hostile_ids", c01::hostile_ids), ("abandoned", c01::abandoned), ("routing_threads", c01::routing_threads), ("nested_searches", c01::nested_searches), ("stale_requests", c01::stale_requests), ("starttls_strays", c01::starttls_strays)],
         "C02" => vec![("requests", c02::requests), ("modifiers", c02::modifiers), ("composed_requests", c02::composed_requests), ("cloned_handles", c02::cloned_handles)],
-        "C03" => vec![("responses", c03::responses), ("helpers", c03::helpers), ("paged_results", c03::paged_results), ("starttls_results", c03::starttls_results)],
+        "C03" => vec![("responses", c03::responses), ("helpers", c03::helpers), ("paged_results", c03::paged_results), ("starttls_results", c03::starttls_results), ("odd_result_codes", c03::odd_result_codes)],
         "C04" => vec![("cuts", c04::cuts), ("write_errors", c04::write_errors), ("handle_drops", c04::handle_drops), ("real_transports", c04::real_transports), ("paged_connection_loss", c16::paging_faults), ("malformed_results", c04::malformed_results), ("late_readers", c04::late_readers), ("unbind_under_backpressure", c04::unbind_under_backpressure)],
         "C05" => vec![("wrap", c05::wrap), ("threads", c05::threads), ("boundaries", c05::boundaries)],
         "C06" => vec![("decoder_prefixes", c06::decoder_prefixes), ("partitions", c06::partitions), ("exhaustive_splits", c06::exhaustive_splits), ("bursts", c06::bursts)],
